@@ -357,6 +357,18 @@ def failed_calls_once():
             call(pv.ideal_diffusion_curve, 330.0, [comp], None, None, 5e-5, mdl)
     call(build.DiffusionCurve, mixture=only_nrtl, membrane_name="M", feed_temperature=330.0, feed_compositions=[build.composition(0.3, "weight")])
     call(build.permeance(1.0).convert, "SI", None)
+    # ... and a few unrelated SUCCESSFUL calls (a VLE fit, a permeance fit, a save-free curve construction)
+    try:
+        import os as _os
+
+        from pyvaporation import VLEPoints, fit_vle
+
+        from . import REPO
+
+        vle = VLEPoints.from_csv(_os.path.join(REPO, "tests", "VLE_data", "binary", "MeOH_DMC.csv"))
+        call(fit_vle, VLEPoints(components=vle.components, data=vle.data[:5]), "Powell")
+    except Exception:
+        pass
 
 
 def preuse(comp, mix=None):
